@@ -12,7 +12,7 @@ import Revm.Proofs.EvmLinkStatic6
 import Revm.Proofs.EvmLinkTerm
 import Revm.Proofs.EvmLinkTotal4
 import Revm.Proofs.EvmLinkInit
-import Revm.Proofs.EvmLinkInterp13
+import Revm.Proofs.EvmLinkInterp14
 /-! C01Link — the whole-transaction model `Revm.Model.Evm.transact` (C01) SATISFIES the component properties.
 
 `Evm.transact` (EvmTx / EvmFrame / EvmLoop / EvmHost) was written independently of the component models that carry the
@@ -1025,12 +1025,12 @@ a `Bytes` and whose gas limit is a `u64` below `u64::MAX` (`ETyped`), for every 
 fuel or more, `Evm.transact` returns a result on a well-formed world, or fails softly (`Soft`: code-store miss,
 precompile panic, oracle miss, fatal database error), or with the EOFCREATE action. NEVER `interpreter: …`,
 `insert outcome: …`, `free_context`, nor "out of fuel". -/
-theorem transact_total_partial' (pco : PcOut) (fuel : Nat) (w : World) (e : Evm.Env)
+theorem transact_total_partial' (fuel : Nat) (w : World) (e : Evm.Env)
     (spec : Nat) (h : WOk w) (hw : WTyped w) (he : ETyped e) (hf : 2 * e.tx.gasLimit + 2 ≤ fuel) :
     (∃ o w', Evm.transact fuel w e spec = .ok (o, w') ∧ WOk w') ∨
     (∃ err, Evm.transact fuel w e spec = .error err ∧
       (Soft err ∨ err = .panic "unsupported: Action.eofCreate (EOF frames are not modelled)")) := by
-  have h1 := transact_tot3 pco outB inB fuel w e spec h hw he
+  have h1 := transact_tot3 pcOut outB inB fuel w e spec h hw he
   have h2 := transact_terminates' fuel w e spec hf
   cases hx : Evm.transact fuel w e spec with
   | ok p => rw [hx] at h1; exact Or.inl ⟨p.1, p.2, rfl, h1⟩
